@@ -39,6 +39,7 @@ func thBodies(p thProg, ev *[]tt.Op) []func() {
 	// may hand the baton to other threads in the middle of an Advance
 	vtime.OnJump = func(d time.Duration) { *ev = append(*ev, op("adv", int(d/time.Millisecond))) }
 	th := gogu.NewThrottle(time.Duration(p.Per)*time.Millisecond, p.Trailing == 1)
+	thRelease = func() { th.Cancel() }
 	*ev = append(*ev, op("new", p.Per, p.Trailing))
 	bodies := []func(){func() {
 		for _, a := range p.Script {
@@ -70,6 +71,17 @@ func thBodies(p thProg, ev *[]tt.Op) []func() {
 		})
 	}
 	return bodies
+}
+
+// thRelease cancels the throttle of the run that just ended.  Only needed for code that parks its waiters
+// in channel operations: the scheduler cannot unwind those, they would pile up run after run.
+var thRelease func()
+
+func thReleaseBlocked() {
+	if vsync.ExtMarks.Load() > 0 && thRelease != nil {
+		thRelease()
+		vtime.Quiesce(time.Second)
+	}
 }
 
 func thFinish(r *vsync.Result, ev []tt.Op) ([]tt.Op, error) {
@@ -179,6 +191,7 @@ func init() {
 							ev = nil
 							return thBodies(p, &ev)
 						}, pb, 20000, false, func(r *vsync.Result) bool {
+							defer thReleaseBlocked()
 							seq, err := thFinish(r, ev)
 							if err != nil {
 								ferr = err
